@@ -340,3 +340,13 @@ pub fn spec_label(t: &str) -> Option<Label> {
         None
     }
 }
+
+/// How a label is written according to the documented grammar, independent of the library's
+/// printer: one character, `α` + decimal index, or the text without its padding blanks.
+pub fn spec_show(l: &Label) -> String {
+    match l {
+        Label::Greek(c) => c.to_string(),
+        Label::Alpha(n) => format!("α{n}"),
+        Label::Str(a) => a.iter().filter(|c| **c != ' ').collect(),
+    }
+}
